@@ -238,7 +238,12 @@ func sysRandomStims(rng *rand.Rand, cfg sys.Config, n int, w map[string]int) []s
 		case "newstream":
 			out = append(out, sys.Stim{K: "start", T: t, Op: "NewStream", Md: []string{"none", "none", "M1"}[rng.Intn(3)]})
 		case "op":
-			out = append(out, sys.Stim{K: "op", T: t, Op: []string{"Send1", "Send2", "Recv", "Recv", "CloseSend", "Close", "Send1", "Send2", "Recv", "Recv", "CloseSend", "SendErr", "SendBad"}[rng.Intn(13)], R: 1 + rng.Intn(sys.MaxRPC)})
+			ops := []string{"Send1", "Send2", "Recv", "Recv", "CloseSend", "Close", "Send1", "Send2", "Recv", "Recv", "CloseSend", "SendErr", "SendBad"}
+			op := ops[rng.Intn(13)]
+			if cfg.GateU && rng.Intn(8) == 0 {
+				op = "SendG"
+			}
+			out = append(out, sys.Stim{K: "op", T: t, Op: op, R: 1 + rng.Intn(sys.MaxRPC)})
 		case "hstep":
 			out = append(out, sys.Stim{K: "hstep", A: []string{"recv", "recv", "send1", "send2", "closesend", "retnil", "reterr", "recv", "send1", "sendbad"}[rng.Intn(10)]})
 		case "relw":
